@@ -107,6 +107,7 @@ class Intc(MemoryType):
         super().__init__(size)
         self.lines = lines if lines is not None else {'irq': False, 'fiq': False}
         self.acks = []
+        self.on_grant = None
 
     def read(self, address, size):
         v = (1 if self.lines['irq'] else 0) | (2 if self.lines['fiq'] else 0)
@@ -119,6 +120,11 @@ class Intc(MemoryType):
         elif address < 8:
             self.lines['fiq'] = False
             self.acks.append('fiq')
+        elif address < 12:
+            # supervisor call from an abort handler: "grant the access that just faulted"
+            self.acks.append('grant')
+            if self.on_grant is not None:
+                self.on_grant()
 
 
 def make_device(d, lines=None):
